@@ -342,7 +342,7 @@ func c14R4(p *core.Prog, r *core.Report) {
 			}
 			return nil
 		}}) {
-			if o.Kind == core.OCall {
+			if o.Kind == core.OCall && (o.Res == 0 || o.Res == -1) {
 				for _, h := range heads {
 					if o.Call == h {
 						return true
